@@ -95,11 +95,11 @@ Proof. reflexivity. Qed.
 
 (** ... and through one accepted SetConfig(key [1; 2]) of either contract. *)
 Lemma tie_config_run_neofs :
-  keys_of (crun CNeoFS (cinit []) [CSet true [] [1; 2]%N [9%N]]) = [bytes_of_zs p_neofs_configPrefix ++ [1; 2]%N].
+  keys_of (crun CNeoFS (cinit []) [CSet true [] [1; 2]%N (VBytes [9%N])]) = [bytes_of_zs p_neofs_configPrefix ++ [1; 2]%N].
 Proof. vm_compute. reflexivity. Qed.
 
 Lemma tie_config_run_netmap :
-  keys_of (crun CNetmap (cinit []) [CSet true [] [1; 2]%N [9%N]]) = [bytes_of_zs p_netmap_configPrefix ++ [1; 2]%N].
+  keys_of (crun CNetmap (cinit []) [CSet true [] [1; 2]%N (VBytes [9%N])]) = [bytes_of_zs p_netmap_configPrefix ++ [1; 2]%N].
 Proof. vm_compute. reflexivity. Qed.
 
 (** _deploy's setConfig *)
@@ -120,12 +120,12 @@ Proof. vm_compute. auto. Qed.
 Definition max_cfg_key (pfx : list Z) : nat := (64 - length (bytes_of_zs pfx))%nat.
 
 Lemma tie_spec_caccept_neofs :
-  map (fun n => spec_caccept (CSet true [] (repeat 0%N n) []))
+  map (fun n => spec_caccept CNeoFS (CSet true [] (repeat 0%N n) (VBytes [])))
       [max_cfg_key p_neofs_configPrefix; S (max_cfg_key p_neofs_configPrefix)] = [true; false].
 Proof. vm_compute. reflexivity. Qed.
 
 Lemma tie_spec_caccept_netmap :
-  map (fun n => spec_caccept (CSet true [] (repeat 0%N n) []))
+  map (fun n => spec_caccept CNetmap (CSet true [] (repeat 0%N n) (VBytes [])))
       [max_cfg_key p_netmap_configPrefix; S (max_cfg_key p_netmap_configPrefix)] = [true; false].
 Proof. vm_compute. reflexivity. Qed.
 
